@@ -140,7 +140,10 @@ where
     run_sim(sched.spec(), steps, env, move || {
         match std::panic::catch_unwind(std::panic::AssertUnwindSafe(f)) {
             Ok(v) => Ok(v),
-            Err(p) => Err(verif_rt::sched::panic_text(&p)),
+            Err(p) => {
+                verif_rt::release_deferred();
+                Err(verif_rt::sched::panic_text(&p))
+            }
         }
     })
 }
